@@ -97,10 +97,32 @@ def gen_conn():
     for cond, enum_name in re.findall(r'if\s*\(((?:\s*strcmp\(name,\s*"[^"]+"\)\s*==\s*0\s*(?:\|\|)?)+)\)\s*conn->stream_error->type\s*=\s*(XMPP_SE_\w+)', herr):
         table.setdefault(enum_name, [])
         table[enum_name] += re.findall(r'"([^"]+)"', cond)
+    # … or a lookup table `{"name", XMPP_SE_X}, …`
+    for nm, enum_name in re.findall(r'\{\s*"([^"]+)"\s*,\s*(XMPP_SE_\w+)\s*\}', auth):
+        table.setdefault(enum_name, [])
+        if nm not in table[enum_name]:
+            table[enum_name].append(nm)
     rows = []
     for i, e in enumerate(enum_names):
         for nm in table.get(e, []):
             rows.append('(%d, %s)' % (i, lean_bytes(nm.encode())))
+    soft = None
+    if len(rows) < 20:
+        # the mapping is written in a form this translator does not read: keep the last table that
+        # was read (the correspondence check still compares every condition with the real code) and
+        # tell the property that pins the table
+        try:
+            from extract import GEN
+            import os
+            old = open(os.path.join(GEN, "Conn.lean")).read()
+            m_old = re.search(r"def streamErrorNames : List \(Nat × List UInt8\) := \[\n  (.*?)\]\n", old, re.S)
+            if m_old and m_old.group(1).strip():
+                rows = [r for r in m_old.group(1).split(",\n  ")]
+        except OSError:
+            pass
+        soft = ExtractError("_handle_error: the stream error condition table is no longer in a form the "
+                            "translator reads (%d names found); last read table kept" % len(table))
+        soft.only_props = ["C13"]
     body += "def streamErrorNames : List (Nat × List UInt8) := [\n  " + ",\n  ".join(rows) + "]\n"
     # the buffers the XEP-0198 counters are printed into (`<a h=…/>`, `<resume h=…/>`): a uint32
     # needs 10 digits + NUL
@@ -114,6 +136,8 @@ def gen_conn():
     body += "def smHBufSizes : List Nat := [%s]\n" % ", ".join(map(str, hb))
     body += "\nend Strophe.Gen\n"
     write("Conn", body)
+    if soft is not None:
+        raise soft
 
 
 def lower_camel(name):
